@@ -59,6 +59,7 @@ type Config struct {
 	Sched      int        `json:"sched"`
 	SwitchProb float64    `json:"switch_prob,omitempty"`
 	Points     []uint64   `json:"points,omitempty"`
+	SyncPoints []uint64   `json:"sync_points,omitempty"` // SchedPCT: preempt at the n-th yield next to a synchronisation operation (ascending)
 	Decisions  []Decision `json:"decisions,omitempty"`
 	MaxSteps   uint64     `json:"max_steps,omitempty"`
 	SoftSteps  uint64     `json:"soft_steps,omitempty"` // after this many steps PCT/Store fall back to random walk
@@ -137,6 +138,8 @@ type sim struct {
 	doneCh   chan int
 	curProbe [maxRegions]int // region -> number of tasks currently inside
 	decOverflow bool
+	syncSeen uint64
+	syncI    int
 	spawned  int
 	spawnCap bool
 	n0       int // tasks the run started with
@@ -415,6 +418,17 @@ func (s *sim) choose(kind uint8) int {
 		if s.pointI < len(s.cfg.Points) && s.cfg.Points[s.pointI] <= s.steps {
 			s.pointI++
 			return s.pickOther()
+		}
+		// sync points: the n-th yield next to a synchronisation operation (right before or
+		// right after it). A few such preemptions, the rest of the run uninterrupted: the
+		// schedule that opens the window between two critical sections of one task and
+		// lets another task run through it
+		if kind == kSync || s.lastKind == kSync {
+			s.syncSeen++
+			if s.syncI < len(s.cfg.SyncPoints) && s.cfg.SyncPoints[s.syncI] <= s.syncSeen {
+				s.syncI++
+				return s.pickOther()
+			}
 		}
 		return s.cur
 	case SchedStore:
